@@ -91,7 +91,9 @@ def build_history(rng: random.Random):
         m = rng.randrange(n_models)
         steps.append({'model': m, 'cfg': rng.randrange(len(models[m]['cfgs'])),
                       'reuse_builder': rng.random() < 0.5,
-                      'reuse_cfg_object': rng.random() < 0.4})
+                      'reuse_cfg_object': rng.random() < 0.4,
+                      # the user edits the Configuration object of an earlier build in place
+                      'edit_cfg_object': rng.random() < 0.3})
     return {'models': models, 'steps': steps}
 
 
@@ -129,6 +131,7 @@ def eval_case(history: dict) -> dict:
     standalone = {}
     shared_builder = Builder()
     cfg_objects = {}
+    last_cfg = {}
     failed_before = set()
     reused_after_failure = False
     results = []
@@ -137,7 +140,17 @@ def eval_case(history: dict) -> dict:
         enc = history['models'][m]['cfgs'][step['cfg']]
         key = (m, step['cfg'])
         try:
-            if step['reuse_cfg_object'] and key in cfg_objects:
+            if step.get('edit_cfg_object') and m in last_cfg:
+                cfg = last_cfg[m]
+                fresh = shellbuild.make_configuration(enc, fcs[m])
+                for attr, val in vars(fresh).items():
+                    setattr(cfg, attr, val)
+                for old_key in [k for k, v in cfg_objects.items() if v is cfg]:
+                    del cfg_objects[old_key]     # the object now stands for this configuration
+                cfg_objects[key] = cfg
+                cnt['configuration_objects_edited_in_place'] = \
+                    cnt.get('configuration_objects_edited_in_place', 0) + 1
+            elif step['reuse_cfg_object'] and key in cfg_objects:
                 cfg = cfg_objects[key]
             else:
                 cfg = shellbuild.make_configuration(enc, fcs[m])
@@ -147,6 +160,7 @@ def eval_case(history: dict) -> dict:
             failed_before.add(m)
             cnt['failed_builds'] = cnt.get('failed_builds', 0) + 1
             continue
+        last_cfg[m] = cfg
         if m in failed_before:
             reused_after_failure = True
         before_model = deep_canon(fcs[m])
@@ -300,6 +314,7 @@ def main(tier: str) -> int:
     run = common.Run(PROP, tier)
     n = 30 if tier == 'quick' else 1000
     run.require('snapshots_compared', 'builds_compared_with_fresh_process',
+                'configuration_objects_edited_in_place',
                 'support_files_compared', 'failed_builds', 'successful_builds')
     for item, res in run.pmap(_worker, [(run.seed, i) for i in range(n)], timeout=1800):
         common.absorb(run, {'seed': item[0], 'stream': item[1]}, res)
